@@ -82,10 +82,30 @@ func VerifC18Enforce() {
 			if s == 1 && r == 1 && !full {
 				continue // the other subject holds at most the first role
 			}
+			if s == 1 && verifParam("othersubject", 1) == 0 {
+				continue
+			}
 			if verifBool("assigned") {
 				assigned[s][r] = true
 				must(rw.AssignRole(ctx, subjects[s], roles[r]))
 			}
+		}
+	}
+	// A group is a parent in the ontology too, but not a role: filing the subject and a policy under the same
+	// group grants nothing.
+	if g := verifParam("group", 1); g > 0 {
+		grp := ontology.ID{Type: ontology.ResourceTypeGroup, Key: "g1"}
+		must(ow.DefineResource(ctx, grp))
+		ofSubject := verifBool("group.parent-of-subject")
+		ofPolicy := ofSubject
+		if g == 1 { // thorough: the two edges independently; quick (2): both or neither
+			ofPolicy = verifBool("group.parent-of-policy")
+		}
+		if ofSubject {
+			must(ow.DefineRelationship(ctx, grp, ontology.RelationshipTypeParentOf, subjects[0]))
+		}
+		if ofPolicy {
+			must(ow.DefineRelationship(ctx, grp, ontology.RelationshipTypeParentOf, policy.OntologyID(pkeys[1])))
 		}
 	}
 	// one change right before the check
